@@ -58,6 +58,16 @@ def config_to_sexp(cfg):
     return sexp(out)
 
 
+_LIT = ['edge', None, None, ['Constant', 'Name'], False]
+# configurations that name *inner* positions only (never the direct operands of and/or/if-else/lambda/assert)
+INNER_ONLY = [
+    [_LIT, ['edge', ['Call'], None, ['expr'], True]],                     # name call arguments (and callees) only
+    [['edge', ['Call'], 'args', None, True]],                             # ... including literals
+    [_LIT, ['edge', ['Call', 'BinOp'], None, ['Call'], True]],            # name calls that are operands of calls / operators
+    [_LIT, ['edge', ['Call', 'Tuple', 'Subscript', 'Attribute'], None, ['expr'], True]],
+]
+
+
 def random_config(rng):
     """Random edge-pattern configuration in the style of anf_test.py (class / tuple of classes / ANY slots)."""
     k = rng.random()
